@@ -127,6 +127,7 @@ func c05RefundRun(w *world.World, c c05RefundCase) (reported, consumed uint64, f
 
 // c05RefundPass enumerates clears × gas limits; the gas limits are derived from the consumption measured with an ample limit.
 func c05RefundPass(run *ev.Run, w *world.World) {
+	c05GuardRunner()
 	for k := -1; k <= 8; k++ {
 		_, consumed, fs := c05RefundRun(w, c05RefundCase{Part: "refund", Clears: k, GasLimit: 3_000_000})
 		for _, f := range fs {
